@@ -593,6 +593,7 @@ func stageSched(ctx context.Context, r *gal.Rand, w *gal.Writer, tmp string, sca
 	if scale > 1 {
 		jobsList = []int{1, 2, 3, 1, 2, 4, 1, 2, 3, 1, 1, 2}
 	}
+limitRuns:
 	for _, jobs := range jobsList {
 		n := 3 + r.Intn(maxN-2)
 		perm := shuffled(r, []int{0, 1, 2, 3, 4}[:n])
@@ -653,7 +654,7 @@ func stageSched(ctx context.Context, r *gal.Rand, w *gal.Writer, tmp string, sca
 			mu.Unlock()
 			fmt.Printf("IMPL-VIOLATION tag=install-packages-never-returns %s\n", jsonOf(map[string]any{"GOMAXPROCS": jobs, "packages": n, "release_order": perm,
 				"requests_seen(package index, responses released before)": seen}))
-			break // the leaked call keeps its goroutines; one witness is enough
+			break limitRuns // the leaked call keeps its goroutines; one witness is enough
 		}
 		runtime.GOMAXPROCS(prev)
 		if err != nil {
